@@ -37,17 +37,23 @@ def classic_envs(ctx: Ctx) -> list:
 
 
 def mujoco_envs(ctx: Ctx) -> list:
+    """every MuJoCo class with default options, plus one variant per boolean observation option (include_* / exclude_*)
+    with that option flipped: the declared observation space must follow the options"""
+    import inspect
     from lerax.env import mujoco as mj
     names = ["Ant", "HalfCheetah", "Hopper", "Humanoid", "HumanoidStandup", "InvertedDoublePendulum", "InvertedPendulum", "Pusher",
              "Reacher", "Swimmer", "Walker2d"]
     out = []
     for n in names:
         out.append((n, {}, lambda n=n: getattr(mj, n)()))
-    if ctx.thorough:
-        out.append(("Hopper", {"exclude_current_positions_from_observation": False},
-                    lambda: mj.Hopper(exclude_current_positions_from_observation=False)))
-        out.append(("Ant", {"include_cfrc_ext_in_observation": False}, lambda: mj.Ant(include_cfrc_ext_in_observation=False)))
+        for pname, par in inspect.signature(getattr(mj, n).__init__).parameters.items():
+            if isinstance(par.default, bool) and (pname.startswith("include_") or pname.startswith("exclude_")):
+                kw = {pname: not par.default}
+                out.append((n, kw, lambda n=n, kw=kw: getattr(mj, n)(**kw)))
     return out
+
+
+FULL_VARIANTS = (("Hopper", "exclude_current_positions_from_observation"), ("Ant", "include_cfrc_ext_in_observation"))
 
 
 def stacks_for(env, ctx: Ctx, rng) -> list:
@@ -268,6 +274,10 @@ def gen_cases(ctx: Ctx, family: str, modes_every: int = 0) -> list:
     cases = []
     envs = classic_envs(ctx) if family == "classic" else mujoco_envs(ctx)
     for (name, kw, mk) in envs:
+        if family == "mujoco" and kw and not (ctx.thorough and (name, next(iter(kw))) in FULL_VARIANTS):
+            # option variant: the reset alone shows whether the declared space follows the option (no step compilation)
+            cases.append(dict(family=family, env=name, kw=kw, stack=[], mode="sample", steps=0, seed=rng.randrange(2 ** 31), modes_every=0))
+            continue
         env0 = mk()
         stacks = stacks_for(env0, ctx, rng)
         if family == "mujoco" and not ctx.thorough:
